@@ -73,6 +73,9 @@ type Ev struct {
 	// BoolIdx: like ErrIdx but for a boolean result (Ok = true, Fail = false); -1 = none
 	BoolIdx int
 	Data    any
+	// NonZeroOnOk lists result indexes that are non-nil when the event is Ok
+	// (interface contract such as "returns a workspace or an error").
+	NonZeroOnOk []int
 }
 
 // Rule parameterises the engine.
@@ -102,6 +105,8 @@ type Rule struct {
 	// event (e.g. a comparison of two interesting values). It is called for the
 	// condition of an If when taking the edge with the given truth value.
 	OnBranch func(x *Ctx, s State, cond ssa.Value, taken bool) (State, string)
+	// KeyByChain reports the same instruction separately per call chain.
+	KeyByChain bool
 	// MaxConfigs bounds the exploration (0 = default).
 	MaxConfigs int
 }
@@ -115,6 +120,7 @@ type Violation struct {
 	Witness []string
 	Key     string
 	Count   int // number of (state, path) variants folded into this report
+	Chain   []*ssa.Function // call chain from the root to Fn
 }
 
 // Engine runs one rule.
@@ -573,7 +579,17 @@ func (e *Engine) violate(c *config, instr ssa.Instruction, msg string) {
 	if i := strings.Index(head, ":"); i >= 0 {
 		head = head[:i]
 	}
-	key := fmt.Sprintf("%s|%s|%d", head, c.fn.String(), pos)
+	var chain []*ssa.Function
+	for x := c; x != nil; x = x.outer {
+		chain = append([]*ssa.Function{x.fn}, chain...)
+	}
+	ck := ""
+	if e.R.KeyByChain {
+		for _, f := range chain {
+			ck += f.String() + ">"
+		}
+	}
+	key := fmt.Sprintf("%s|%s|%s|%d", head, ck, c.fn.String(), pos)
 	w := e.witness(c)
 	if old, ok := e.vioSeen[key]; ok {
 		// keep the shortest witness per (rule, function, instruction)
@@ -583,7 +599,7 @@ func (e *Engine) violate(c *config, instr ssa.Instruction, msg string) {
 		old.Count++
 		return
 	}
-	v := &Violation{Msg: msg, Fn: c.fn, Pos: pos, State: c.s, Key: key, Witness: w, Count: 1}
+	v := &Violation{Msg: msg, Fn: c.fn, Pos: pos, State: c.s, Key: key, Witness: w, Count: 1, Chain: chain}
 	e.vioSeen[key] = v
 	e.Violations = append(e.Violations, v)
 }
@@ -1118,6 +1134,13 @@ func (e *Engine) doCall(c *config, call ssa.CallInstruction) []*config {
 					ph := Ok
 					if (k == NonZero) != isBool {
 						ph = Fail
+					}
+					if ph == Ok {
+						for _, ri := range ev.NonZeroOnOk {
+							if ri < len(rets) && rets[ri] == Unknown {
+								rets[ri] = NonZero
+							}
+						}
 					}
 					xx := &Ctx{E: e, Fn: c.fn, Instr: instr, c: n}
 					ns, msg := e.R.Step(xx, n.s, ev, ph)
